@@ -39,7 +39,7 @@ def meta_fs(fixture_key):
 
 
 def make_meta_text(fixture_key, nap, ns, shank_of=None, size_fields="complete",
-                   claimed_ns=None, fs=None):
+                   claimed_ns=None, fs=None, ap_gains=None):
     """
     :param nap: number of AP channels (one sync channel is appended)
     :param ns: number of frames the metadata describes (when size_fields != 'none')
@@ -79,6 +79,12 @@ def make_meta_text(fixture_key, nap, ns, shank_of=None, size_fields="complete",
             v = _fmt_float(cns / fs_eff)
         elif kk == "imSampRate" and fs is not None:
             v = repr(fs) if fs != int(fs) else str(int(fs))
+        elif kk == "imroTbl" and ap_gains is not None:
+            # NP1 imro entries are "(chn bank ref apgain lfgain filter)": per-channel AP gains are legal
+            head = re.match(r"\([0-9,]*\)", v).group(0)
+            ents = re.findall(r"\(([0-9]+) ([0-9]+) ([0-9]+) ([0-9]+) ([0-9]+) ([0-9]+)\)", v)
+            ents = [(e[0], e[1], e[2], str(int(ap_gains[i])) if i < len(ap_gains) else e[3], e[4], e[5]) for i, e in enumerate(ents)]
+            v = head + "".join("(" + " ".join(e) + ")" for e in ents)
         elif kk == "snsShankMap":
             head = re.match(r"\([0-9,]*\)", v).group(0)
             ents = re.findall(r"\(([0-9]*):([0-9]*):([0-9]*):([0-9]*)\)", v)[:nap]
@@ -129,7 +135,7 @@ def make_data(data_seed, ns, nap, saturate=None, amp=600, maxint=8192, smooth=Fa
 
 
 def write_recording(folder, stem, fixture_key, data, shank_of=None, size_fields="complete",
-                    claimed_ns=None, fs=None):
+                    claimed_ns=None, fs=None, ap_gains=None):
     """Writes <stem>.ap.bin and <stem>.ap.meta into folder; returns bin path."""
     folder = Path(folder)
     folder.mkdir(parents=True, exist_ok=True)
@@ -138,7 +144,7 @@ def write_recording(folder, stem, fixture_key, data, shank_of=None, size_fields=
     data.tofile(bin_file)
     (folder / f"{stem}.ap.meta").write_text(
         make_meta_text(fixture_key, nc - 1, ns, shank_of=shank_of, size_fields=size_fields,
-                       claimed_ns=claimed_ns, fs=fs)
+                       claimed_ns=claimed_ns, fs=fs, ap_gains=ap_gains)
     )
     return bin_file
 
